@@ -79,13 +79,13 @@ theorem stringByteAt_append (pj : PJ) (extra : Bytes) (o l : UInt64) (s : Bytes)
     and appends `sv` to the string buffer; the tape then holds `v` with exactly that node replaced by the string
     `sv` — all other strings, shared or not, still read as before. (`< 2^55`: the offset must fit below the flag.) -/
 theorem setString_doc (pj : PJ) (v : LVal) (hok : Ok pj v) (q : Nat) (hnode : HasNode q (q + 2) v) (i : Iter)
-    (hoff : i.off = q + 1) (ht : inCase (caseOf swSetStringBytes 0) i.t = true) (sv : Bytes)
+    (hoff : i.off = q + 1) (hv : i.off < i.lim) (ht : inCase (caseOf swSetStringBytes 0) i.t = true) (sv : Bytes)
     (hsmall : pj.strings.size + sv.size < 2^55) :
     ∃ pj' i', i.setStringBytes pj sv = .ok (pj', i') ∧ Ok pj' (substV q (.str sv.toList q) v) ∧
       pj'.strings = pj.strings ++ sv ∧ pj'.msg = pj.msg ∧ pj'.tape.size = pj.tape.size := by
   have hsz := node_in_tape pj q (q+2) v hok hnode
   obtain ⟨pj1, h1, hs, hm, hz, hw0, hw1, hfr⟩ :=
-    set2_spec pj i q hoff hsz (mkWord tagString wSTRINGBUFBIT ||| UInt64.ofNat pj.strings.size) (UInt64.ofNat sv.size)
+    set2_spec pj i q hoff hv hsz (mkWord tagString wSTRINGBUFBIT ||| UInt64.ofNat pj.strings.size) (UInt64.ofNat sv.size)
   refine ⟨{ pj1 with strings := pj.strings ++ sv }, { i with t := tagString, cur := mkWord tagString wSTRINGBUFBIT ||| UInt64.ofNat pj.strings.size }, ?_, ?_, rfl, hm, hz⟩
   · simp only [Iter.setStringBytes, ht, if_true, h1, Res.bind_ok]
   · have hn55 : UInt64.ofNat pj.strings.size < 0x80000000000000 := by
